@@ -126,6 +126,11 @@ def gen_case(rng, tier, i):
     return {"fam": "T", "cls": cls, "entry": entry, "ops": ops}
 
 
+def _foreign(name):
+    from checks.c09_tally import _foreign as f
+    return f(name)
+
+
 def _getters(ctx, t, where, only=None):
     out = {}
     calls = {"n": t.n, "min": t.min, "max": t.max, "weighted_sum": t.weighted_sum, "weighted_mean": t.weighted_mean,
@@ -245,7 +250,8 @@ def run_case(case, ctx):
             if case["entry"] == "notify":
                 # notifications that are not a (weight, value) data event for this statistic
                 for what, ev in (("plain-data-event", Event(StatEvents.DATA_EVENT, (1.0, 2.0))), ("list-content", Event(StatEvents.WEIGHT_DATA_EVENT, [1.0, 2.0])),
-                                 ("triple", Event(StatEvents.WEIGHT_DATA_EVENT, (1.0, 2.0, 3.0))), ("scalar", Event(StatEvents.WEIGHT_DATA_EVENT, 2.0))):
+                                 ("triple", Event(StatEvents.WEIGHT_DATA_EVENT, (1.0, 2.0, 3.0))), ("scalar", Event(StatEvents.WEIGHT_DATA_EVENT, 2.0)),
+                                 ("foreign-type-of-the-same-name", Event(_foreign("WEIGHT_DATA_EVENT"), (1.0, 2.0)))):
                     ctx.count("malformed_notifications")
                     try:
                         t.notify(ev)
